@@ -594,8 +594,8 @@ fn scopes_cases(r: &mut Rng, n: usize) -> Vec<Case> {
     out
 }
 
-fn scopes_case(lets: &[(String, LE)], decls: &[LDecl], fors: &[LFor]) -> Case {
-    // source text
+/// the source text of a program of the scopes stream
+fn scopes_source(lets: &[(String, LE)], decls: &[LDecl], fors: &[LFor]) -> String {
     let it_txt = |it: &LIt| format!("{} in {}", if it.tuple { format!("({})", it.vars.join(", ")) } else { it.vars[0].clone() }, le_txt(&it.over));
     let idx_txt = |idx: &Vec<LE>| idx.iter().map(|e| format!("_{{{}}}", le_txt(e))).collect::<String>();
     let cons: String = fors.iter().enumerate().map(|(k, f)| format!("    c{}{}: z >= 0 for {}\n", k, idx_txt(&f.idx), f.its.iter().map(it_txt).collect::<Vec<_>>().join(", "))).collect();
@@ -603,7 +603,36 @@ fn scopes_case(lets: &[(String, LE)], decls: &[LDecl], fors: &[LFor]) -> Case {
         d.vars.iter().map(|(n, ix)| match ix { None => n.clone(), Some(ix) => format!("{}{}", n, idx_txt(ix)) }).collect::<Vec<_>>().join(", "), lty_txt(&d.ty),
         if d.its.is_empty() { String::new() } else { format!(" for {}", d.its.iter().map(it_txt).collect::<Vec<_>>().join(", ")) })).collect();
     let ltxt = lets.iter().map(|(n, e)| format!("    let {} = {}\n", n, le_txt(e))).collect::<String>();
-    let src = format!("min 1\ns.t.\n    z >= 0\n{}where\n{}define\n    z as Real\n{}", cons, ltxt, dtxt);
+    format!("min 1\ns.t.\n    z >= 0\n{}where\n{}define\n    z as Real\n{}", cons, ltxt, dtxt)
+}
+
+/// random programs of the typed streams (constants, declarations, quantified constraints), as source text: the
+/// totality check (C18) runs them through every stage in its watched worker
+pub fn typed_program_sources(r: &mut Rng, n: usize) -> Vec<String> {
+    let mut out = vec![];
+    for k in 0..n {
+        FAULT_DEN.store(if k % 3 == 0 { 14 } else { 60 }, std::sync::atomic::Ordering::Relaxed);
+        let low = k % 3 != 0;
+        let (cenv, lets) = gen_lets(r, 4);
+        let mut fresh = 0usize;
+        let mut decls = vec![];
+        for dk in 0..r.below(3) {
+            let (its, env) = gen_its(r, &cenv, low, &mut fresh, 0);
+            let vars = vec![(format!("d{}x", dk), Some(gen_idx(r, &env, low)))];
+            let a = gen_int_bound(r, &env, low);
+            let ty = if r.chance(1, 2) { LTy::Int(a.clone(), LE::Bin("add", Box::new(a), Box::new(LE::Lit(LV::I(r.range(0, 4)))))) } else { LTy::Real(None) };
+            decls.push(LDecl { its, vars, ty });
+        }
+        let mut fors = vec![];
+        for _ in 0..1 + r.below(2) { let (its, env) = gen_its(r, &cenv, low, &mut fresh, 1); let idx = gen_idx(r, &env, low); fors.push(LFor { its, idx }); }
+        out.push(scopes_source(&lets, &decls, &fors));
+    }
+    FAULT_DEN.store(14, std::sync::atomic::Ordering::Relaxed);
+    out
+}
+
+fn scopes_case(lets: &[(String, LE)], decls: &[LDecl], fors: &[LFor]) -> Case {
+    let src = scopes_source(lets, decls, fors);
     let res = catch_unwind(AssertUnwindSafe(|| {
         let pre = RoocParser::new(src.clone()).parse().map_err(|e| e.to_string_from_source(&src))?;
         let names: Vec<String> = pre.constants().iter().map(|c| c.name.value().clone()).collect();
